@@ -140,6 +140,9 @@ ONION_PAIRS = ('blinded payment TLVs', 'blinded trampoline TLVs', 'blinded messa
 
 # written odd types that the reader intentionally ignores (pair name, type) -> reason
 UNREAD_ODD_OK = {
+	('trampoline payload (outbound -> inbound)', 21): 'OutboundTrampolinePayload::LegacyBlindedPathEntry is addressed to a non-LDK trampoline node that pays a legacy (non-trampoline) blinded recipient; LDK does not act as that node, so InboundTrampolinePayload has no reader for it (design limitation, not a codec slip)',
+	('trampoline payload (outbound -> inbound)', 22): 'same: LegacyBlindedPathEntry blinded paths, consumed by other implementations only',
+	('onion message payload', 'message . tlv_type ()'): 'the message TLV type is dynamic; the reader handles it in the custom-TLV closure of decode_tlv_stream_with_custom_tlv_decode',
 	('lightning/src/events/mod.rs Event variant id 3', 3): 'legacy `rejected_by_dest`-era field written as constant false for downgrade compatibility',
 	('lightning/src/events/mod.rs Event variant id 3', 9): 'legacy retry field written as constant None for downgrade compatibility',
 }
